@@ -21,7 +21,7 @@ RULE = ("random call histories (length 2-12, with repeats) of {expand_macros (+p
 ASSUMPTIONS = ["fingerprint = types, __dict__ contents, container order and aliasing structure of everything reachable from the argument",
                "mutating an *output* and seeing the input change is an observation, not a violation (the docstrings allow sharing)"]
 TIERS = {"quick": {"shards": 8, "budget_s": 80}, "thorough": {"shards": 16, "budget_s": 420}}
-REQUIRE = {"op:used_qubits": 300, "native:partial": 50, "op:expand_subcircuits_custom": 100, "histories": 500, "calls": 4000, "contract-evaluations": 4000, "results-compared-with-fresh": 4000,
+REQUIRE = {"circuits-with-a-branch-statement": 150, "op:used_qubits": 300, "native:partial": 50, "op:expand_subcircuits_custom": 100, "histories": 500, "calls": 4000, "contract-evaluations": 4000, "results-compared-with-fresh": 4000,
            "op:run": 200, "op:parse_output": 200, "op:unit_timing": 200, "chained-calls": 300}
 
 OPS = ["expand_macros", "expand_macros_preserve", "fill_in_let", "fill_in_let_ov", "fill_in_map", "expand_subcircuits",
@@ -150,10 +150,36 @@ def call(op, c, ctxd):
     return ("ok", result_fp(op, r)), r
 
 
+def branch_text(cases):
+    """The experimental branch statement: one sequential block per measured state."""
+    out = ["branch {"]
+    for state, stmts in cases:
+        lines = sx.to_text(("circuit",) + tuple(tuple(x) if isinstance(x, list) else x for x in stmts)).strip().split("\n")
+        out.append("'%s': { %s }" % (state, " ; ".join(l.strip() for l in lines if l.strip())))
+    out.append("}")
+    return "\n".join(out) + "\n"
+
+
 def judge(case, rec=None):
+    if case.get("branch"):
+        # the experimental branch statement is switched on for this circuit only
+        import jaqalpaq.core.branch as bm
+
+        old = bm.USE_EXPERIMENTAL_BRANCH
+        bm.USE_EXPERIMENTAL_BRANCH = True
+        try:
+            return judge_(case, rec)
+        finally:
+            bm.USE_EXPERIMENTAL_BRANCH = old
+    return judge_(case, rec)
+
+
+def judge_(case, rec=None):
     prog = case_prog(case)
     hist = case["history"]
     text = sx.to_text(prog)
+    if case.get("branch"):
+        text += branch_text([(st, [sx.unnorm(x) if isinstance(x, list) else x for x in body]) for st, body in case["branch"]])
     nat = case.get("native", True)
     native = partial_native() if nat == "partial" else (X.native() if nat else None)
     o = lib.outcome(lib.parse, text, native)
@@ -324,6 +350,14 @@ def shard(ctx):
                 "outputs": [rng.randrange(2) for _ in range(nvis)], "history": make_history(rng, rng.randint(2, 12))}
         if not exe:
             case["history"] = [s for s in case["history"] if (s if isinstance(s, str) else s[1]) not in ("run", "parse_output")] or ["generate", "expand_macros"]
+        if rng.random() < 0.15:
+            # the experimental branch statement after the body, its cases holding copies of simple body statements
+            simple = [x for x in prog[1:] if x[0] == "gate" and x[1] not in ("prepare_all", "measure_all")]
+            if simple:
+                nq = 1
+                case["branch"] = [(format(k, "0%db" % nq), [rng.choice(simple) for _ in range(rng.randint(1, 2))]) for k in range(2)]
+                case["history"] = [h for h in case["history"] if (h if isinstance(h, str) else h[1]) not in ("run", "parse_output")] or ["expand_macros", "generate"]
+                rec.count("circuits-with-a-branch-statement")
         process(ctx, case)
         if i <= 2:
             rec.sample({"history": case["history"], "text": sx.to_text(prog)})
